@@ -154,7 +154,7 @@ func oracleC05(r *Result) {
 	}
 }
 
-func isTrueWord(s string) bool { return s == "true" }
+func isTrueWord(s string) bool { return strings.Trim(s, " \t\r\n") == "true" }
 
 // ---------------------------------------------------------------------------
 // C06
@@ -348,7 +348,7 @@ func oracleC07(r *Result) {
 		if t.Abandoned || t.Panic != "" || t.Reply == nil || t.Sent == nil || !t.Sent.Conformant {
 			continue
 		}
-		if len(storageFaults(t)) > 0 || bodyFaultFired(t) || writerFaultFired(t) || t.AdvDuring {
+		if len(storageFaults(t)) > 0 || bodyFaultFired(t) || writerFaultFired(t) || t.AdvDuring || t.Cancelled || t.Msg.DeadlineNs > 0 {
 			continue
 		}
 		rec := firstCall(t, "GetEntityByID")
@@ -395,7 +395,7 @@ func (g G) planSSO(prop string) *Plan {
 		world: worldOpts{nilUnknownPct: 12, maxSPs: 3, maxUsers: 2, maxReplicas: 2, hardPct: 10, hardURLPct: 25, signReqVariety: true, parkVariety: true, noCertPct: 15, issuerVariety: true,
 			endpointVariety: true, skewPct: 30},
 		wSSO: 50, wCallback: 2, wSLO: 2, wResume: 25, wFinish: 12, wAdvance: 4, wRereg: 3, wDelSP: 1, wRestart: 1,
-		devPct: 30, tamperPct: 40, timePct: 25, bodyFaultPct: 4, rogueSPPct: 6, hostVariety: true,
+		devPct: 30, tamperPct: 40, timePct: 25, bodyFaultPct: 4, rogueSPPct: 6, hostVariety: true, wCancel: 3, deadlinePct: 6,
 		minSteps: 3, maxSteps: 30, maxPre: 0, autoFinishPct: 40}
 	if prop == "C06" {
 		o.devPct, o.tamperPct, o.timePct = 55, 15, 45
@@ -404,6 +404,12 @@ func (g G) planSSO(prop string) *Plan {
 		o.faultPcts = []int{0, 0, 0, 12}
 	}
 	p := g.planMix(prop, o)
+	for i := range p.Steps {
+		// POST bodies may legally arrive in pieces (tiny reads, or two segments cut at or between parameters)
+		if m := p.Steps[i].Msg; m != nil && m.Kind == "sso" && m.Binding == "post" && m.BodyFault == "" && g.chance(fmt.Sprintf("pieces%d", i), 30) {
+			m.BodyFault, m.BodyOff = g.pick(fmt.Sprintf("pieces%d.k", i), "split", "split", "short"), g.intn(fmt.Sprintf("pieces%d.o", i), 4000)
+		}
+	}
 	if prop == "C05" {
 		// replay: the untampered message is delivered (and answered) first, the tampered copy with the very same signature afterwards
 		var out []Step
@@ -426,7 +432,10 @@ func (g G) planC07() *Plan {
 		world: worldOpts{maxSPs: 3, maxUsers: 3, maxReplicas: 2, hardPct: 10, hardURLPct: 25, signReqVariety: true, parkVariety: true, noCertPct: 10, issuerVariety: true,
 			endpointVariety: true, customAttrs: true, sloVariety: true, acsSupportedVariety: true},
 		wSSO: 40, wSLO: 20, wAttrQ: 20, wCallback: 5, wMeta: 2, wResume: 25, wFinish: 12, wComplete: 4, wAdvance: 3,
-		timePct: 20, hostVariety: true, minSteps: 3, maxSteps: 30, maxPre: 1, autoFinishPct: 40, callbackAfter: 30}
+		timePct: 20, hostVariety: true, minSteps: 3, maxSteps: 30, maxPre: 1, autoFinishPct: 40, callbackAfter: 30,
+		// some runs carry storage faults: a request hit by one is not judged, every other conformant request of the run still is —
+		// a fault met by one request must not make the IdP refuse the next (state poisoned by a failed lookup, a stuck limiter …)
+		faultPcts: []int{0, 0, 0, 12, 25}}
 	p := g.planMix("C07", o)
 	for i := range p.Steps {
 		m := p.Steps[i].Msg
@@ -436,7 +445,7 @@ func (g G) planC07() *Plan {
 		lab := fmt.Sprintf("c07.%d", i)
 		// bodies may legally arrive in small pieces
 		if (m.Kind == "attrq" || m.Binding == "post") && g.chance(lab+".short", 30) {
-			m.BodyFault, m.BodyOff = "short", g.intn(lab+".shortk", 7)
+			m.BodyFault, m.BodyOff = g.pick(lab+".pieces", "short", "split"), g.intn(lab+".shortk", 4000)
 		}
 		// RelayState is opaque to the IdP: return URLs, key=value pairs, base64 padding, blanks
 		if (m.Kind == "sso" || m.Kind == "slo") && g.chance(lab+".relay", 35) {
